@@ -2,7 +2,7 @@ package main
 
 // gen_c38: the literals of x/jsonrpc2/frame.go that Model/C38.v relies on  ->  Gen/C38.v
 //   * headerReader.Read:  the case labels of `switch name`, the delimiter of ReadString, the rune of
-//     IndexRune, base and bit size of strconv.ParseInt, the comparisons of `length` with a literal
+//     IndexRune, base and bit size of strconv.ParseInt, the comparisons of a variable with an integer literal
 //   * headerWriter.Write: the fmt.Fprintf format and the source text of its arguments
 
 import (
@@ -55,12 +55,12 @@ func genC38(e *Env) error {
 	if err != nil {
 		return err
 	}
-	sws, err := g4bSwitches(p, fd, "name")
+	sws, err := g4bSwitches(p, fd, "")
 	if err != nil {
 		return err
 	}
 	if len(sws) != 1 {
-		return fmt.Errorf("headerReader.Read: expected one `switch name`, found %d", len(sws))
+		return fmt.Errorf("headerReader.Read: expected one switch over string literals, found %d", len(sws))
 	}
 	one := func(what string, calls [][]ast.Expr, n int) ([]ast.Expr, error) {
 		if len(calls) != 1 || len(calls[0]) != n {
@@ -93,14 +93,15 @@ func genC38(e *Env) error {
 	if !ok1 || !ok2 {
 		return fmt.Errorf("headerReader.Read: ParseInt base / bit size are not integer literals")
 	}
-	// comparisons  length <op> <int literal>
+	// comparisons  <variable> <op> <int literal>, in source order (total == 0, colon < 0, length <= 0, length == 0)
 	var cmps []string
 	ast.Inspect(fd.Body, func(n ast.Node) bool {
 		b, ok := n.(*ast.BinaryExpr)
 		if !ok {
 			return true
 		}
-		if id, ok := b.X.(*ast.Ident); ok && id.Name == "length" {
+		cmp := b.Op == token.EQL || b.Op == token.NEQ || b.Op == token.LSS || b.Op == token.LEQ || b.Op == token.GTR || b.Op == token.GEQ
+		if _, ok := b.X.(*ast.Ident); ok && cmp {
 			if v, ok := g4bIntLit(b.Y); ok {
 				cmps = append(cmps, fmt.Sprintf("%s%d", b.Op.String(), v))
 			}
@@ -111,7 +112,7 @@ func genC38(e *Env) error {
 	fmt.Fprintf(&out, "(* headerReader.Read *)\nDefinition reader_header_names : list (list str) := %s.\n", g4bStrListList(sws[0].Labels))
 	fmt.Fprintf(&out, "Definition reader_line_delim : N := %d%%N.\nDefinition reader_name_sep : N := %d%%N.\n", delim, sep)
 	fmt.Fprintf(&out, "Definition reader_parseint_base : Z := %s.\nDefinition reader_parseint_bits : Z := %s.\n", coqZ(base), coqZ(bits))
-	fmt.Fprintf(&out, "Definition reader_length_tests : list str := %s.\n", g4bStrList(cmps))
+	fmt.Fprintf(&out, "Definition reader_int_tests : list str := %s.\n", g4bStrList(cmps))
 	fmt.Fprintf(&out, "Definition reader_trimspace_calls : Z := %s.\n\n", coqZ(int64(trims)))
 
 	p, fd, err = g4bFunc(e, "x/jsonrpc2", "headerWriter.Write")
@@ -128,7 +129,7 @@ func genC38(e *Env) error {
 	}
 	var wargs []string
 	for _, x := range fp[0][2:] {
-		wargs = append(wargs, p.Src(x))
+		wargs = append(wargs, g4bShape(p, x))
 	}
 	fmt.Fprintf(&out, "(* headerWriter.Write *)\nDefinition writer_format : str := %s.\nDefinition writer_format_args : list str := %s.\n", coqBytes(wf), g4bStrList(wargs))
 	if err := e.WriteJSON("c38", map[string]interface{}{"names": sws[0].Labels, "delim": delim, "sep": sep, "base": base, "bits": bits,
